@@ -4,6 +4,6 @@ CONSTANTS
   MaxGen = 3
   MaxBatch = 4
 VIEW View
-INVARIANTS WellFormed AliveIffIssuedNotRemoved AliveSetIsPoolAliveSet NoSharedId ZeroNeverAlive CountIsCreationsMinusRemovals AbsIndInv
-PROPERTIES StepsArePoolIndSteps FreshHandles RecycledFirst
+INVARIANTS WellFormed AliveIffIssuedNotRemoved AliveSetIsPoolAliveSet NoSharedId ZeroNeverAlive CountIsCreationsMinusRemovals
+PROPERTIES FreshHandles RecycledFirst
 CHECK_DEADLOCK FALSE
